@@ -185,12 +185,16 @@ func checkC07(c *Ctx, r *Report) {
 	r.Assumptions = append(r.Assumptions, "integer conversions do not overflow (amounts < 2^63)", "stored balances are non-negative decimal strings")
 	r.rule("C07.R1", "the grant is min(request, balance), is the value subtracted from the balance, and the final-unit indication is set exactly when request > balance", 4)
 	r.rule("C07.R2", "the written-back balance equals the statement's equation for every (Requested-Action, CC-Request-Type) value possible on each path", 4)
+	r.rule("C07.R7", "the stored balance is parsed in 64 bits and the account is looked up under the request's subscriber and rating group exactly (no narrowing of parsed numbers or of look-up keys)", 2)
+	r.rule("C07.R8", "amounts, request types and actions mean on the wire what the server computes with: member types match the dictionary's AVP types in full width and the named constants carry the dictionary's item codes (shared with C17.R2/R8)", 100)
 	r.rule("C07.R3", "Session-Id, CC-Request-Type and CC-Request-Number of the answer are assigned from the request on every path to Marshal", 3)
 	r.rule("C07.R4", "the unknown subscriber / rating group edge returns without writing any balance", 1)
 	r.rule("C07.R5", "the balance write-back dominates the answer (store before acknowledge)", 1)
 	r.rule("C07.R6", "the handler keeps no state between requests (no captured or package-level variable written)", 1)
 
 	abmfRules(c, r, "C07.R1", "C07.R2", "C07.R3", "C07.R4", "C07.R5", "C07.R6")
+	abmfWidthRules(c, r, "C07.R7")
+	r.shareFrom(c, checkC17, map[string]string{"C17.R2": "C07.R8", "C17.R8": "C07.R8"})
 }
 
 // abmfRules runs the account-server rules under the given rule ids ("" = skip).
